@@ -59,6 +59,8 @@ Definition tevent_of (k : nkey) (ev : uevent) : tevent :=
 Definition interp (tr : list tevent) (m : bmp_msg) : list tevent :=
   match m with
   | MPeerUp h _ _ _ sent rcvd _ =>
+    if ignored_asn c (p_as h) then []              (* IgnorePeerASNs: the peer is not mirrored *)
+    else
     match open_decode sent, open_decode rcvd with
     | Some so, Some ro =>
       if asn_of_open ro =? p_as h
